@@ -383,3 +383,56 @@ func vh_C08_L2_parked_writer_rejected() {
 	vassert(a.pendingQueue.size() == pend, "and queues nothing")
 	vcover("end")
 }
+
+// C08.L4: DATA arriving in SHUTDOWN-SENT (the peer is still draining). Every such chunk —
+// in order, above a hole, or a duplicate — is answered at once by a SACK and a SHUTDOWN
+// whose cumulative TSN ack is the cumulative point (never a TSN beyond a hole), and the
+// T2 timer is running again afterwards, so the SHUTDOWN keeps being repeated until the
+// peer has seen it.
+func vh_C08_L4_data_in_shutdown_sent() {
+	a, _ := vNewAssoc()
+	cum := a.peerLastTSN()
+	a.setState(shutdownSent)
+	a.t2Shutdown.start(a.rtoMgr.getRTO())
+	steps := 2
+	var sent []uint32
+	for i := 0; i < steps; i++ {
+		var off uint32
+		switch vPick(3) {
+		case 0:
+			off = 1 // in order
+		case 1:
+			off = 3 // above a hole
+		case 2:
+			if len(sent) == 0 {
+				off = 1
+			} else {
+				off = sent[len(sent)-1] // the same chunk again
+			}
+		}
+		sent = append(sent, off)
+		before := a.peerLastTSN()
+		vassert(vDeliver(a, vDataChunk(a, cum+off, 2, false, 1)) == nil, "DATA ok")
+		nSack, nShutdown := 0, 0
+		for _, raw := range vWriterWake(a) {
+			p := vDecode(raw)
+			vassert(p != nil, "packet decodes")
+			for _, c := range p.chunks {
+				switch x := c.(type) {
+				case *chunkSelectiveAck:
+					nSack++
+					vassert(x.cumulativeTSNAck == a.peerLastTSN(), "the SACK carries the cumulative point")
+				case *chunkShutdown:
+					nShutdown++
+					vassert(x.cumulativeTSNAck == a.peerLastTSN(), "the SHUTDOWN acknowledges exactly the cumulative point, never a TSN beyond a hole")
+				}
+			}
+		}
+		vassert(!vBefore(a.peerLastTSN(), before), "the cumulative point does not move back")
+		vassert(nSack >= 1, "DATA received in SHUTDOWN-SENT is acknowledged at once")
+		vassert(nShutdown == 1, "and answered with a SHUTDOWN")
+		vassert(a.t2Shutdown.isRunning(), "T2 runs again once that SHUTDOWN has been sent")
+		vassert(a.getState() == shutdownSent, "still SHUTDOWN-SENT")
+	}
+	vcover("end")
+}
